@@ -106,7 +106,7 @@ def scenario(cfg, n_resume, seed2, second_gen=False):
             hk.wrap(SamplerCore, "save_sampler_state", after=after)
             attach.iteration_budget(hk, 400)
             try:
-                s.run(n_total=c["n_total"], progress=False, save_every=1)
+                s.run(n_total=c["n_total"], progress=bool(c.get("progress")), save_every=1)
             except Exception as e:
                 key = "save-raises-with-pool" if c.get("pool") is not None else "run-with-save-every-raises"
                 out["bad"].append((key, f"run(save_every=1) raised {type(e).__name__}: {e} (pool={c.get('pool')!r})"))
@@ -152,7 +152,7 @@ def scenario(cfg, n_resume, seed2, second_gen=False):
             try:
                 with attach.Hooks() as hk:
                     attach.iteration_budget(hk, 400)
-                    s3.run(n_total=nt3, progress=False, resume_state_path=sv["path"])
+                    s3.run(n_total=nt3, progress=bool(c.get("progress")), resume_state_path=sv["path"])
             except Exception as e:
                 out["bad"].append(("resume-raises", f"run(resume_state_path={os.path.basename(sv['path'])}) raised {type(e).__name__}: {e}\n{fmt_exc()[-500:]}"))
                 continue
@@ -198,7 +198,7 @@ def scenario(cfg, n_resume, seed2, second_gen=False):
                     c2 = dict(c, output_dir=tmp2)
                     s4 = _build(c2, tmp2)[0]
                     np.random.seed(seed2 + 1000 + k)
-                    s4.run(n_total=c["n_total"], progress=False, resume_state_path=sv["path"], save_every=1)
+                    s4.run(n_total=c["n_total"], progress=bool(c.get("progress")), resume_state_path=sv["path"], save_every=1)
                     files = sorted((f for f in os.listdir(tmp2) if f.startswith("ck_") and "final" not in f and f.endswith(".state")),
                                    key=lambda f: int(f.split("_")[1].split(".")[0]))
                     if files:
@@ -206,7 +206,7 @@ def scenario(cfg, n_resume, seed2, second_gen=False):
                         pick = files[len(files) // 2]
                         it_pick = int(pick.split("_")[1].split(".")[0])
                         s5 = _build(c2, tmp2)[0]
-                        s5.run(n_total=c["n_total"], progress=False, resume_state_path=os.path.join(tmp2, pick))
+                        s5.run(n_total=c["n_total"], progress=bool(c.get("progress")), resume_state_path=os.path.join(tmp2, pick))
                         H5 = runs.history(s5)
                         out["second_gen"] = out.get("second_gen", 0) + 1
                         if digest(H5["u"][:it_pick]) != digest(H4["u"][:it_pick]) or [int(i) for i in H5["iter"]] != list(range(1, len(H5["iter"]) + 1)):
@@ -665,6 +665,10 @@ def run():
     idxs = [0, 1, 2, 3, 5, 11, 6] if ck.quick else list(range(ncfg))     # quick: incl. the integer-pool and cluster_every=2 configurations
     tasks = [("tvf.checks.c08:scenario", dict(cfg=make_cfg(i, ck.subseed("cfg", i)), n_resume=ck.pick(2, 6), seed2=ck.subseed("res", i)), None)
              for i in idxs]
+    # the same with the progress display on (run()'s default): the live bar is part of what a checkpoint pickles; incl. readers
+    # with clustering and cluster_every > 1
+    for j, i in enumerate(ck.pick([6, 9, 2], [6, 9, 2, 1, 0, 5, 12, 11])):
+        tasks.append(("tvf.checks.c08:scenario", dict(cfg=dict(make_cfg(i, ck.subseed("pcfg", i)), progress=True), n_resume=2, seed2=ck.subseed("pres", i)), None))
     # particle coordinates in another precision than double (the prior transform's dtype is part of the particle state a checkpoint restores)
     for j, xd in enumerate(ck.pick(["longdouble", "float32"], ["longdouble", "float32", "longdouble", "float32"])):
         tasks.append(("tvf.checks.c08:scenario", dict(cfg=dict(make_cfg([0, 2, 4, 1][j], ck.subseed("xd", j)), xdtype=xd), n_resume=2, seed2=ck.subseed("xdr", j)), None))
@@ -682,6 +686,8 @@ def run():
         ck.case(dict(restore_resume=cfg), nontrivial=val["nontrivial_resume"] > 0)
         if cfg.get("xdtype"):
             ck.event("restore / resume scenarios with particle coordinates in float32 or extended precision")
+        if cfg.get("progress"):
+            ck.event("restore / resume scenarios written and read with the progress display on")
         ck.event("checkpoints written", val["saves"])
         ck.event("checkpoints restored into a fresh sampler and compared", val["restored"])
         ck.event("resumed runs completed", val["resumed"])
